@@ -248,13 +248,16 @@ let cyclic = Cc::new_cyclic(|weak| {
             panic!("Cannot create a new Cc while tracing!");
         }
 
-        let cc = Cc::new(NewCyclicWrapper::new());
-
-        // Immediately call inner_ptr and forget the Cc instance. Having a Cc instance is dangerous, since:
+        // Don't use Cc::new here: the automatically-started collection may panic, and unwinding
+        // would then drop the NewCyclicWrapper (so, an uninitialized T). Also, never create a Cc instance:
         // 1. The strong count will become 0
         // 2. The Cc::drop implementation might be accidentally called during an unwinding
-        let invalid_cc: NonNull<CcBox<_>> = cc.inner_ptr();
-        mem::forget(cc);
+        let invalid_cc: NonNull<CcBox<_>> = crate::state::state(|state| {
+            #[cfg(feature = "auto-collect")]
+            crate::trigger_collection(state);
+
+            CcBox::new(NewCyclicWrapper::new(), state)
+        });
 
         let metadata: NonNull<BoxedMetadata> = unsafe { invalid_cc.as_ref() }.get_or_init_metadata();
 
